@@ -1049,6 +1049,27 @@ pub fn run_history(ledger: &mut Ledger, base: &mut Base, shard: &mut Shard, kind
     }
 }
 
+/// Table group: the set-up runs once on a fresh target; every deposit then runs on exactly that
+/// state (ledger snapshot restored before each).
+pub fn run_group(ledger: &mut Ledger, base: &mut Base, shard: &mut Shard, kind: TargetKind, setup: &[Op], deposits: &[GDep]) {
+    let t = base.new_target(ledger, shard, kind);
+    let mut model = Model::new();
+    for (i, op) in setup.iter().enumerate() {
+        let hist = || json!({"target_kind": "virtual", "ops": setup[..=i].iter().map(op_j).collect::<Vec<_>>()});
+        Runner { ledger: &mut *ledger, base: &mut *base }.run_op(shard, &t, &mut model, op, &hist);
+    }
+    let snap = ledger.snapshot();
+    for (j, g) in deposits.iter().enumerate() {
+        if j > 0 {
+            ledger.restore(&snap);
+        }
+        let op = Op::Deposit(g.clone());
+        let hist = || json!({"target_kind": if kind == TargetKind::Virtual { "virtual" } else { "advanced" }, "ops": setup.iter().chain(std::iter::once(&op)).map(op_j).collect::<Vec<_>>()});
+        Runner { ledger: &mut *ledger, base: &mut *base }.run_op(shard, &t, &mut model, &op, &hist);
+        shard.count("c39:table_cases");
+    }
+}
+
 // ---------------------------------------------------------------------------------------------
 // Check driver
 // ---------------------------------------------------------------------------------------------
@@ -1062,17 +1083,18 @@ pub fn spec(tier: Tier) -> Spec {
     .assume("'names a badge on the list' is exact membership of the named ResourceOrNonFungible (naming one id of a listed resource, or the resource of a listed id, is not on the list); 'proves it' = a proof satisfying require(badge) is in the caller's auth zone when the method is called (explicit proof, or the transaction signature for a signature badge)")
     .assume("protocol version = latest (simulator default); account configuration is tracked by the model from successful owner transactions, vault existence and balances are read from raw substates before/after each transaction")
     .explain("oracle: decision table from the property text (preference > default rule; AllowExisting = XRD or vault exists; listed+proven badge overrides; refused+listed+unproven fails; otherwise refund variants return every bucket and abort variants fail) and exact pre/post vault deltas of target, sender and a bystander account plus the set of vault nodes written by the transaction")
-    .floor("c39:guarded_deposits", tier.pick(12_000, 150_000))
-    .floor("c39:table_cases", tier.pick(10_000, 40_000))
-    .floor("c39:random_history_deposits", tier.pick(1_000, 50_000))
-    .floor("c39:deltas_exact", tier.pick(10_000, 120_000));
+    .floor("c39:guarded_deposits", tier.pick(4_000, 60_000))
+    .floor("c39:table_cases", tier.pick(2_500, c39_gen::table().iter().map(|c| c.deposits.len() as u64).sum()))
+    .floor("c39:random_history_deposits", tier.pick(300, 12_000))
+    .floor("c39:deposits_on_aged_account_50plus_ops", tier.pick(40, 3_000))
+    .floor("c39:deltas_exact", tier.pick(4_000, 60_000));
     let mut s = s;
     for row in ["all-allowed", "no-buckets", "refused+no-badge", "refused+unlisted-badge", "refused+listed-badge-proven", "refused+listed-badge-not-proven"] {
         for v in Variant::ALL {
             if row == "no-buckets" && !v.is_batch() {
                 continue;
             }
-            s = s.floor(&format!("c39:row:{row}:{}", v.name()), if row == "no-buckets" { 5 } else { 100 });
+            s = s.floor(&format!("c39:row:{row}:{}", v.name()), if row == "no-buckets" { 5 } else { tier.pick(30, 1000) });
         }
     }
     for c in [
@@ -1100,7 +1122,7 @@ pub fn spec(tier: Tier) -> Spec {
         "c39:step:remove_resource_preference",
         "c39:step:remove_authorized_depositor",
     ] {
-        s = s.floor(c, 50);
+        s = s.floor(c, tier.pick(20, 200));
     }
     s
 }
@@ -1114,8 +1136,9 @@ pub fn run(args: &Args) -> i32 {
     // ---- phase 1: the finite table, strided over the shards, in a seed-dependent order ----
     let table = c39_gen::table();
     let total = table.len();
-    report.extra.insert("table_size".into(), json!(total));
-    let budget1 = Duration::from_secs(budget_secs(args.tier, 40, 240));
+    report.extra.insert("table_groups".into(), json!(total));
+    report.extra.insert("table_size".into(), json!(table.iter().map(|c| c.deposits.len()).sum::<usize>()));
+    let budget1 = Duration::from_secs(budget_secs(args.tier, 30, 480));
     let seed = args.seed;
     report.run_shards(391, threads, budget1, |i, _rng, shard| {
         let mut ledger = Ledger::new();
@@ -1128,14 +1151,13 @@ pub fn run(args: &Args) -> i32 {
                 shard.count("c39:table_truncated_by_time");
                 break;
             }
-            let (kind, ops) = c39_gen::instantiate(&table[k], &mut base);
-            run_history(&mut ledger, &mut base, shard, kind, &ops);
-            shard.count("c39:table_cases");
+            let (kind, setup, deposits) = c39_gen::instantiate(&table[k], &mut base);
+            run_group(&mut ledger, &mut base, shard, kind, &setup, &deposits);
         }
         rv_ledger::walkers::walk_all(shard, &ledger, "end of C39 table phase");
     });
     // ---- phase 2: random histories on fresh and aged accounts, with background traffic ----
-    let budget2 = Duration::from_secs(budget_secs(args.tier, 20, 420));
+    let budget2 = Duration::from_secs(budget_secs(args.tier, 20, 360));
     let max_deposits = scaled(args, args.tier.pick(4_000, 400_000));
     report.run_shards(392, threads, budget2, |i, rng, shard| {
         let mut world = World::new(shard, rng, 4);
